@@ -3,7 +3,6 @@
 //! insertion rules. Anything outside the subset is `Unsupported` (machinery),
 //! anything that Go's grammar rejects is `Syntax` (a Go compile error).
 
-use std::cell::Cell;
 use std::fmt;
 
 #[derive(Debug, Clone, PartialEq, Eq, Hash, PartialOrd, Ord, Copy)]
@@ -243,7 +242,7 @@ pub struct Stmt {
 pub enum StmtKind {
     Expr(Expr),
     Go(Expr),
-    VarDecl(String, TyExpr, Option<Expr>, Cell<Option<()>>),
+    VarDecl(String, TyExpr, Option<Expr>),
     Assign(Expr, Expr), // lhs = rhs  (lhs: ident, selector, *p, index)
     Return(Option<Expr>),
     If(Expr, Block, Option<Block>),
@@ -974,7 +973,7 @@ impl P {
                 }
                 let ty = self.ty()?;
                 let init = if self.eat_op("=") { Some(self.expr()?) } else { None };
-                StmtKind::VarDecl(name, ty, init, Cell::new(None))
+                StmtKind::VarDecl(name, ty, init)
             }
             Tok::Kw("return") => {
                 self.next();
